@@ -57,9 +57,12 @@ class System:
                 ops.append(dict(op="M", az=a, i=i))
         for r in ((None, None), (f[1], f[F - 2]), (None, f[3]), (f[2], None)):
             ops.append(dict(op="U", rng=list(r)))
+        ops.append(dict(op="U", rng=[None, None], kw={"height": [None, 3.6]}))
         for n in (0.5, 1, 2):
             for d in ("lognormal", "normal"):
                 ops.append(dict(op="F", n=n, dfn=d, dmc=d, rng=[None, None]))
+        ops.append(dict(op="F", n=1, dfn="lognormal", dmc="lognormal", rng=[f[1], f[F - 2]]))
+        ops.append(dict(op="F", n=2, dfn="normal", dmc="lognormal", rng=[None, f[F - 2]]))
         for m in itertools.product((True, False), repeat=self.W):
             if sum(m) >= 1 and not all(m):
                 ops.append(dict(op="T", mask=list(m)))
@@ -83,10 +86,10 @@ class System:
                 t.valid_window_boolean_mask[op["i"]] = False
                 t.valid_peak_boolean_mask[op["i"]] = False
             elif op["op"] == "U":
-                o.update_peaks_bounded(search_range_in_hz=tuple(op["rng"]))
-                h.rng = tuple(op["rng"])
+                o.update_peaks_bounded(search_range_in_hz=tuple(op["rng"]), find_peaks_kwargs=op.get("kw"))
+                h.rng, h.kw = tuple(op["rng"]), op.get("kw")
             elif op["op"] == "F":
-                h.rng = tuple(op["rng"])
+                h.rng, h.kw = tuple(op["rng"]), None
                 with np.errstate(all="ignore"):
                     hvsrpy.frequency_domain_window_rejection(o, n=op["n"], distribution_fn=op["dfn"],
                                                              distribution_mc=op["dmc"],
@@ -106,6 +109,7 @@ class System:
         o = h.obj
         return (tuple((tuple(vw), tuple(vp)) for vw, vp in self._masks(o)),
                 tuple(None if v is None else float(v) for v in h.rng),
+                repr(h.kw or None),
                 tuple(tuple(_f(v) for v in t._main_peak_frq) for t in o.hvsrs))
 
     def observe(self, h):
